@@ -44,11 +44,33 @@ def search(mismatches, seed):
 
 
 def replay(rep):
-    out = _mine(hybrid.run_all(rep.get("tier", "quick"), rep.get("seed", 0))["failures"])
-    for x in out[:5]:
-        print("oracle:", x.key, x.what[:300])
+    """re-executes the recorded history on the real library and on the model"""
+    import collections
+    item = rep.get("failure") or (rep.get("mismatches") or [{}])[0]
+    ops = (item.get("replay") or {}).get("ops")
+    if not ops:
+        print("replay: no recorded history in this file")
+        return 2
+    fails, tags = [], collections.Counter()
+    c = hybrid.replay_ops(ops, fails, tags)
+    got = common.run_driver("hyb", c.ops)
+    bad = [(l, e, g) for l, e, g in zip(c.ops, c.exp, got) if e is not None and e != g]
+    known = common.load_known()
+    out = []
+    for f in _mine(fails):
+        k = common.match_known(PROP, f, known)
+        if k is None:
+            out.append(f)
+            print("oracle:", f.key, f.what[:300])
+        else:
+            print(f"KNOWN-FINDING: property={PROP} {k['id']}: {f.what[:200]}")
+    for l, e, g in bad[:3]:
+        print(f"model/implementation differ at `{l}`: implementation `{e}` model `{g}`")
     if out:
         print(f"VIOLATION property={PROP} replay=(replayed)")
+        return 1
+    if bad:
+        print(f"VIOLATION property={PROP} replay=(replayed) no-failing-input-found")
         return 1
     print("replay: property holds on this input")
     return 0
